@@ -8,6 +8,8 @@ ops
   file <tbl> <h|d> <idx> <n> (<rid> <t_us> <c1_us> <c2_us> <v>)*n     add a file to a table
   lit <fmt> <y> <mo> <d> <hh> <mi> <ss> <fracNs> <offSec>             parseDateTime vs DuckDB cast
   rel <+|-> <n> <unit> <capS>               evaluateRelativeTime vs DuckDB interval arithmetic (at `now`)
+  rmpart <tbl> <h|d> <idx> <keepFirst 0|1>  delete the files of a partition (all, or all but the first)
+  inval                                     the real QueryHandler.InvalidateCaches (post-compaction hook)
   paths <startNs> <endNs>                   GeneratePartitionPaths
   ext <pred>                                ExtractTimeRange of `SELECT … WHERE <pred>`
   q|qc <qid> <kind> <hdr> <alias> <pred> [<pred>]      query (q: caches invalidated first; qc: caches kept)
@@ -178,8 +180,10 @@ def runQuery (s : DS) (cached : Bool) (qid kind : String) (preds : List Pred) : 
       let valsF := ((rowsOf mem).filter (ev p1)).map (·.v)
       ((rc.filter (fun r => valsP.contains r.v && ev p2 r)).length,
        ((rowsOf cpu).filter (fun r => valsF.contains r.v && ev p2 r)).length)
+  let broken := planBroken (lookupPlan plans "cpu") cpu || (tbls.contains "mem" && planBroken (lookupPlan plans "mem") mem)
+  let npS := if broken then "err" else toString np
   let planS := " ".intercalate (plans.map fun (t, pl) => s!"plan[{t}]={planStr pl}")
-  ({ s with cache := cache' }, s!"range={rangeStr (extract s.now txt)} {planS} rows={np}/{nf}")
+  ({ s with cache := cache' }, s!"range={rangeStr (extract s.now txt)} {planS} rows={npS}/{nf}")
 
 def parsePreds (n : Nat) (ts : List String) : Option (List Pred) :=
   match n with
@@ -196,6 +200,25 @@ def stepC18 (s : DS) (fs : List String) : DS × String :=
     | some t => ({ s with now := t }, "ok")
     | none => (s, "bad-op")
   | ["reset"] => ({ s with tables := [], cache := [] }, "ok")
+  | ["inval"] => ({ s with cache := if survivesInvalidate then s.cache else [] }, "ok")
+  | ["rmpart", tbl, kind, idx, keep] =>
+    match int? idx with
+    | some idx =>
+      if (kind != "h" && kind != "d") || (keep != "0" && keep != "1") then (s, "bad-op") else
+      let part := if kind == "h" then Part.hour idx else Part.day idx
+      let ds := table s tbl
+      let mine := ds.filter (fun f => decide (f.part = part))
+      let kept := if keep == "1" then mine.take 1 else []
+      -- keep the first file of the partition at its position, drop the others
+      let rec go (fs : List File) (seen : Bool) : List File :=
+        match fs with
+        | [] => []
+        | f :: rest =>
+          if decide (f.part = part) then
+            (if !seen && !kept.isEmpty then f :: go rest true else go rest true)
+          else f :: go rest seen
+      (setTable s tbl (go ds false), "ok")
+    | none => (s, "bad-op")
   | "file" :: tbl :: kind :: idx :: n :: rest =>
     match int? idx, nat? n with
     | some idx, some n =>
